@@ -286,6 +286,10 @@ class AB:
             segs = [payload[i:i + 4000] for i in range(0, len(payload), 4000)]
             ci = self.b.transfer("D", remote, payload_segs=segs, cb=[], **kw)
             e = self.b.exp[ci]
+            if kw.get("refuse_at") == "cmd" and self.b.mode == "P" and self.b.cur and self.b.cur[-1].get("data") and self.rng.random() < 0.5:
+                # the server drops its end of the data connection (abortively) before it refuses RETR: still a refusal
+                self.b.cur[-1]["data"]["reset_first"] = True
+                self.dist.add("get:refused-with-the-data-connection-reset-first")
             if e.get("refused"):
                 if name not in self.exp["absent"]:
                     self.exp["absent"].append(name)
